@@ -8,6 +8,7 @@ import (
 	"regexp"
 	"sort"
 	"strings"
+	"sync"
 
 	"golang.org/x/tools/go/packages"
 	"golang.org/x/tools/go/ssa"
@@ -205,24 +206,130 @@ func dedupeBools(in []bool) []bool {
 	return out
 }
 
-// mapAssignTrue: `S[k] = true`; returns S and k.
-func mapAssignTrue(st ast.Stmt) (string, string, bool) {
-	as, ok := st.(*ast.AssignStmt)
-	if !ok || len(as.Lhs) != 1 || len(as.Rhs) != 1 {
-		return "", "", false
+// setMethodKind: methods of a named map type of the store package used as a set: "add" for a method whose body is
+// `recv[param] = true` / `= struct{}{}`, "has" for one that returns the membership of its parameter.  Filled by
+// initSetMethods at the start of the shape rules (the rules match statements by name, as the rest of this file does).
+var setMethodKind = map[string]string{}
+
+var (
+	setMethodMu  sync.Mutex
+	setMethodFor *packages.Package
+)
+
+func initSetMethods(pk *packages.Package) {
+	setMethodMu.Lock()
+	defer setMethodMu.Unlock()
+	if pk == nil || setMethodFor == pk {
+		return
 	}
-	ie, ok := as.Lhs[0].(*ast.IndexExpr)
+	setMethodFor = pk
+	setMethodKind = map[string]string{}
+	for _, fd := range funcDecls(pk) {
+		if fd.Recv == nil || len(fd.Recv.List) != 1 || len(fd.Recv.List[0].Names) != 1 || fd.Body == nil {
+			continue
+		}
+		tv, ok := pk.TypesInfo.Types[fd.Recv.List[0].Type]
+		if !ok {
+			continue
+		}
+		if _, isMap := tv.Type.Underlying().(*types.Map); !isMap {
+			continue
+		}
+		if fd.Type.Params == nil || len(fd.Type.Params.List) != 1 || len(fd.Type.Params.List[0].Names) != 1 {
+			continue
+		}
+		rn, pn := fd.Recv.List[0].Names[0].Name, fd.Type.Params.List[0].Names[0].Name
+		isElem := func(e ast.Expr) bool {
+			ie, ok := e.(*ast.IndexExpr)
+			return ok && exprString(ie.X) == rn && exprString(ie.Index) == pn
+		}
+		switch len(fd.Body.List) {
+		case 1:
+			switch st := fd.Body.List[0].(type) {
+			case *ast.AssignStmt:
+				if len(st.Lhs) == 1 && len(st.Rhs) == 1 && isElem(st.Lhs[0]) && isTrueOrEmptyStruct(st.Rhs[0]) {
+					setMethodKind[fd.Name.Name] = "add"
+				}
+			case *ast.ReturnStmt:
+				if len(st.Results) == 1 && isElem(st.Results[0]) {
+					setMethodKind[fd.Name.Name] = "has"
+				}
+			}
+		case 2:
+			as, ok1 := fd.Body.List[0].(*ast.AssignStmt)
+			rs, ok2 := fd.Body.List[1].(*ast.ReturnStmt)
+			if ok1 && ok2 && len(as.Lhs) == 2 && len(as.Rhs) == 1 && isElem(as.Rhs[0]) && len(rs.Results) == 1 && exprString(rs.Results[0]) == exprString(as.Lhs[1]) {
+				setMethodKind[fd.Name.Name] = "has"
+			}
+		}
+	}
+}
+
+func isTrueOrEmptyStruct(e ast.Expr) bool {
+	if id, ok := e.(*ast.Ident); ok && id.Name == "true" {
+		return true
+	}
+	if cl, ok := e.(*ast.CompositeLit); ok && len(cl.Elts) == 0 {
+		if st, ok := cl.Type.(*ast.StructType); ok && (st.Fields == nil || len(st.Fields.List) == 0) {
+			return true
+		}
+	}
+	return false
+}
+
+// setAddExpr: `S[k] = true`, `S[k] = struct{}{}` or `S.add(k)`; returns the expressions S and k.
+func setAddExpr(st ast.Stmt) (ast.Expr, ast.Expr, bool) {
+	switch x := st.(type) {
+	case *ast.AssignStmt:
+		if len(x.Lhs) != 1 || len(x.Rhs) != 1 {
+			return nil, nil, false
+		}
+		ie, ok := x.Lhs[0].(*ast.IndexExpr)
+		if !ok || !isTrueOrEmptyStruct(x.Rhs[0]) {
+			return nil, nil, false
+		}
+		return ie.X, ie.Index, true
+	case *ast.ExprStmt:
+		call, ok := x.X.(*ast.CallExpr)
+		if !ok || len(call.Args) != 1 {
+			return nil, nil, false
+		}
+		se, ok := call.Fun.(*ast.SelectorExpr)
+		if !ok || setMethodKind[se.Sel.Name] != "add" {
+			return nil, nil, false
+		}
+		return se.X, call.Args[0], true
+	}
+	return nil, nil, false
+}
+
+// mapAssignTrue: a set insertion (setAddExpr); returns S and k as text.
+func mapAssignTrue(st ast.Stmt) (string, string, bool) {
+	sx, kx, ok := setAddExpr(st)
 	if !ok {
 		return "", "", false
 	}
-	if id, ok := as.Rhs[0].(*ast.Ident); !ok || id.Name != "true" {
-		return "", "", false
+	return exprString(sx), exprString(kx), true
+}
+
+// asSetIndex: a membership test `S[k]` or `S.has(k)` as an index expression.
+func asSetIndex(e ast.Expr) (*ast.IndexExpr, bool) {
+	switch x := e.(type) {
+	case *ast.IndexExpr:
+		return x, true
+	case *ast.ParenExpr:
+		return asSetIndex(x.X)
+	case *ast.CallExpr:
+		if se, ok := x.Fun.(*ast.SelectorExpr); ok && len(x.Args) == 1 && setMethodKind[se.Sel.Name] == "has" {
+			return &ast.IndexExpr{X: se.X, Index: x.Args[0]}, true
+		}
 	}
-	return exprString(ie.X), exprString(ie.Index), true
+	return nil, false
 }
 
 func runWorklist(c *core.Ctx) {
 	pk := pkgOf(c, "internal/store")
+	initSetMethods(pk)
 	if pk == nil {
 		c.Unresolved("pkg:store", "store package not found")
 		return
@@ -320,7 +427,7 @@ func runWorklist(c *core.Ctx) {
 					}
 					// `if !S[k]` or `if v, ok := M[k]; ok`
 					if ue, ok := x.Cond.(*ast.UnaryExpr); ok && ue.Op == token.NOT {
-						if ie, ok := ue.X.(*ast.IndexExpr); ok {
+						if ie, ok := asSetIndex(ue.X); ok {
 							g[exprString(ie.X)] = exprString(ie.Index)
 						}
 					}
@@ -347,7 +454,7 @@ func runWorklist(c *core.Ctx) {
 		popSkip, popMark := map[string]string{}, map[string]string{}
 		for _, st := range li.loop.Body.List {
 			if ifs, ok := st.(*ast.IfStmt); ok {
-				if ie, ok := ifs.Cond.(*ast.IndexExpr); ok && len(ifs.Body.List) == 1 {
+				if ie, ok := asSetIndex(ifs.Cond); ok && len(ifs.Body.List) == 1 {
 					if br, ok := ifs.Body.List[0].(*ast.BranchStmt); ok && br.Tok == token.CONTINUE && strings.HasPrefix(exprString(ie.Index), popped) {
 						popSkip[exprString(ie.X)] = exprString(ie.Index)
 					}
@@ -414,13 +521,13 @@ func runWorklist(c *core.Ctx) {
 				if !ok {
 					return true
 				}
-				if ie, ok := ifs.Cond.(*ast.IndexExpr); ok && len(ifs.Body.List) >= 1 {
+				if ie, ok := asSetIndex(ifs.Cond); ok && len(ifs.Body.List) >= 1 {
 					if br, ok := ifs.Body.List[len(ifs.Body.List)-1].(*ast.BranchStmt); ok && br.Tok == token.CONTINUE {
 						addSkip(exprString(ie.X), exprString(ie.Index))
 					}
 				}
 				if ue, ok := ifs.Cond.(*ast.UnaryExpr); ok && ue.Op == token.NOT {
-					if ie, ok := ue.X.(*ast.IndexExpr); ok {
+					if ie, ok := asSetIndex(ue.X); ok {
 						appends := false
 						ast.Inspect(ifs.Body, func(m ast.Node) bool {
 							if as, ok := m.(*ast.AssignStmt); ok && len(as.Lhs) == 1 && exprString(as.Lhs[0]) == li.w {
@@ -503,7 +610,7 @@ func visitWithMarks(stmts []ast.Stmt, guards, outerMarks map[string]string, apps
 				g[k] = v
 			}
 			if ue, ok := x.Cond.(*ast.UnaryExpr); ok && ue.Op == token.NOT {
-				if ie, ok := ue.X.(*ast.IndexExpr); ok {
+				if ie, ok := asSetIndex(ue.X); ok {
 					g[exprString(ie.X)] = exprString(ie.Index)
 				}
 			}
@@ -545,6 +652,7 @@ func runMarkExhaustive(c *core.Ctx) {
 		return
 	}
 	pk := pkgOf(c, "internal/store")
+	initSetMethods(pk)
 	// the collector's mark loop: the worklist loop in the function that calls blobDelete
 	var mark *loopInfo
 	for _, li := range findLoops(pk) {
@@ -616,11 +724,13 @@ func runMarkExhaustive(c *core.Ctx) {
 						return false
 					}
 					ast.Inspect(body, func(m ast.Node) bool {
-						switch y := m.(type) {
-						case *ast.AssignStmt:
-							if _, k, ok := mapAssignTrue(y); ok && mentions(k) {
+						if st, isStmt := m.(ast.Stmt); isStmt {
+							if _, k, ok := mapAssignTrue(st); ok && mentions(k) {
 								used = true
 							}
+						}
+						switch y := m.(type) {
+						case *ast.AssignStmt:
 							if len(y.Lhs) == 1 && exprString(y.Lhs[0]) == mark.w {
 								if mentions(exprString(y.Rhs[0])) {
 									used = true
@@ -681,11 +791,10 @@ func runMarkExhaustive(c *core.Ctx) {
 					if !reassigned && consumes(x.Body, exprString(lc.Args[0])+"["+iv+"]") {
 						covered = true
 					}
-				case *ast.AssignStmt:
+				case *ast.AssignStmt, *ast.ExprStmt:
 					if !many {
-						if _, _, ok := mapAssignTrue(x); ok {
-							ie := x.Lhs[0].(*ast.IndexExpr)
-							if se, ok := ie.Index.(*ast.SelectorExpr); ok && isField(se.X) {
+						if _, kx, ok := setAddExpr(x.(ast.Stmt)); ok {
+							if se, ok := kx.(*ast.SelectorExpr); ok && isField(se.X) {
 								covered = true
 							}
 						}
@@ -769,24 +878,22 @@ func runSweepGuard(c *core.Ctx) {
 	var keepMap ssa.Value
 	for _, g := range an.GuardingEdges(del.Block()) {
 		base, neg := an.CondBase(g.If().Cond)
-		lk, ok := base.(*ssa.Lookup)
-		if !ok || an.Origin(lk.Index) != dkey {
+		lkX, lkIndex, ok := setLookup(base)
+		if !ok || an.Origin(lkIndex) != dkey {
 			continue
 		}
 		isTrue := (g.Succ == 0) != neg
 		if !isTrue && inLoop(g.From) {
 			// the map must come from the mark phase: not one the sweep loop itself fills in
 			writtenInLoop := false
-			if lk.X.Referrers() != nil {
-				for _, ref := range *lk.X.Referrers() {
-					if mu, ok := ref.(*ssa.MapUpdate); ok && (mu.Block() == h || an.BlockReaches(h, mu.Block())) && an.BlockReaches(mu.Block(), h) {
-						writtenInLoop = true
-					}
+			for _, ins := range setInserts(lkX) {
+				if (ins.block == h || an.BlockReaches(h, ins.block)) && an.BlockReaches(ins.block, h) {
+					writtenInLoop = true
 				}
 			}
 			if !writtenInLoop {
 				keepOK = true
-				keepMap = lk.X
+				keepMap = lkX
 			}
 		}
 	}
@@ -871,7 +978,7 @@ func runSweepGuard(c *core.Ctx) {
 		if an.IsMethod(call, r.TypesPath, "Index", "RmDesc") {
 			for _, g := range an.GuardingEdges(call.Block()) {
 				base, neg := an.CondBase(g.If().Cond)
-				if _, ok := base.(*ssa.Lookup); ok && ((g.Succ == 0) == neg) && !an.BlockReaches(call.Block(), del.Block()) {
+				if _, _, ok := setLookup(base); ok && ((g.Succ == 0) == neg) && !an.BlockReaches(call.Block(), del.Block()) {
 					pruneOK = true
 					// the loop doing this ranges over every entry of the index
 					pruneCovers = false
@@ -920,12 +1027,12 @@ func runSweepGuard(c *core.Ctx) {
 				}
 				if ifi := an.BlockIf(from); ifi != nil {
 					base, neg := an.CondBase(ifi.Cond)
-					if lk, ok := base.(*ssa.Lookup); ok && an.Origin(lk.Index) == dkey {
+					if lkX, lkIndex, ok := setLookup(base); ok && an.Origin(lkIndex) == dkey {
 						isTrue := (succ == 0) != neg
-						if isTrue && an.Origin(lk.X) == an.Origin(keepMap) {
+						if isTrue && an.Origin(lkX) == an.Origin(keepMap) {
 							s = 1
 						}
-						if !isTrue && isMember(an.Origin(lk.X)) {
+						if !isTrue && isMember(an.Origin(lkX)) {
 							s = 1
 						}
 					}
@@ -1312,18 +1419,14 @@ func memberCover(c *core.Ctx, m ssa.Value) (idx, pop bool) {
 	if m == nil || m.Referrers() == nil {
 		return false, false
 	}
-	for _, ref := range *m.Referrers() {
-		mu, ok := ref.(*ssa.MapUpdate)
-		if !ok {
-			continue
-		}
-		_, pth := accessPath(an.Strip(mu.Key))
+	for _, mu := range setInserts(m) {
+		_, pth := accessPath(an.Strip(mu.key))
 		if len(pth) == 0 || pth[len(pth)-1] != "Digest" {
 			return false, false
 		}
-		lh := loopHeader(mu.Block())
+		lh := loopHeader(mu.block)
 		uncond := lh != nil
-		for _, g := range an.GuardingEdges(mu.Block()) {
+		for _, g := range an.GuardingEdges(mu.block) {
 			if lh != nil && g.From != lh && an.BlockReaches(lh, g.From) && an.BlockReaches(g.From, lh) {
 				uncond = false
 			}
@@ -1331,11 +1434,11 @@ func memberCover(c *core.Ctx, m ssa.Value) (idx, pop bool) {
 		if !uncond {
 			continue
 		}
-		if ip, ok := indexParamPath(mu.Key); ok && pathEq(ip, "Manifests", "[]", "Digest") {
+		if ip, ok := indexParamPath(mu.key); ok && pathEq(ip, "Manifests", "[]", "Digest") {
 			idx = true
 			continue
 		}
-		root, _ := accessPath(an.Strip(mu.Key))
+		root, _ := accessPath(an.Strip(mu.key))
 		if pathEq(pth, "[]", "Digest") && strings.HasPrefix(root.Type().String(), "[]") && strings.HasSuffix(root.Type().String(), "types.Descriptor") {
 			pop = true
 		}
